@@ -236,7 +236,9 @@ class GetHeadersMessage:
         """Serialize this message to send over the network"""
         # protocol version is 4 bytes little-endian
         result = int_to_little_endian(self.version, 4)
-        # number of hashes is a varint
+        # number of hashes is a varint: this message carries exactly one (start_block)
+        if self.num_hashes != 1:
+            raise ValueError("exactly one locator hash (start_block) is supported")
         result += encode_varint(self.num_hashes)
         # start block is in little-endian
         result += self.start_block[::-1]
